@@ -151,6 +151,16 @@ class C14(Prop):
                 return [fail('search-after-setter', 'find_all(%r) does not return the renamed node' % new)]
             if any(x.expr is n.real for x in ex.soup.find_all(old_name)):
                 return [fail('search-after-setter', 'find_all(%r) still returns the renamed node' % old_name)]
+            if is_env:
+                # searches by the opening / closing marker see the rename too
+                for q, want in (('\\begin{%s}' % new, True), ('\\end{%s}' % new, True),
+                                ('\\begin{%s}' % old_name, False)):
+                    if new == old_name:
+                        continue
+                    found = any(x.expr is n.real for x in ex.soup.find_all(q))
+                    if found != want:
+                        return [fail('search-after-setter', 'after renaming %s to %s find_all(%r) %s the node'
+                                     % (old_name, new, q, 'returns' if found else 'does not return'))]
             ctx.count('searches')
         # (2b) every navigation view / search sees the edited tree (an
         # argument that was dropped must be gone from contents, descendants,
